@@ -2,6 +2,7 @@ import Kio.Proofs.Decode
 import Kio.Proofs.Steps
 import Kio.Proofs.Codec
 import Kio.Model.Current
+import Kio.Proofs.StepsAll
 import Kio.Generated.All
 /-!
 # C10 — malformed input fails with a decode error, never an internal error
@@ -40,6 +41,24 @@ theorem linear_steps (env : Env) (s : Schema) (hwf : s.wf env = true) (bs : Byte
     (rest : Bytes) (h : s.read env bs = .ok (v, rest)) :
     ∃ n, s.readS env bs = .ok (v, rest, n) ∧ n ≤ 2 * (bs.length - rest.length) :=
   Kio.Schema.read_steps_le env s hwf bs v rest h
+
+/-- **linear time, every input**: the instrumented decoder `Schema.readT` (one step per primitive
+    read, per array element and per tagged-loop iteration; steps are counted on failing runs too,
+    and a declared element count only costs the elements actually attempted) returns exactly what
+    the decoder returns and takes at most `2·|input| + 1` steps on a coherent class — whether the
+    input is valid, truncated, random or hostile.  The constant is attained
+    (`Kio.StepsAllEx.bound_attained`). -/
+theorem linear_steps_all (env : Env) (s : Schema) (hwf : s.wf env = true) (bs : Bytes) :
+    ∃ n, s.readT env bs = (s.read env bs, n) ∧ n ≤ 2 * bs.length + 1 :=
+  Kio.Schema.read_steps_all env s hwf bs
+
+/-- a hostile length prefix does not buy work: a declared count of 2^32-2 elements on a
+    two-byte input costs 3 steps (5 when nested) -/
+theorem huge_count_is_cheap :
+    Kio.StepsAllEx.sFlex.readT Kio.StepsAllEx.env [0xff, 0xff, 0xff, 0xff, 0x0f] = (.error .underflow, 3)
+    ∧ Kio.StepsAllEx.sOuter.readT Kio.StepsAllEx.env [0xff, 0xff, 0xff, 0xff, 0x0f, 0xff, 0xff, 0xff, 0xff, 0x0f]
+        = (.error .underflow, 5) :=
+  ⟨Kio.StepsAllEx.huge_count.1, Kio.StepsAllEx.huge_count.2.2⟩
 
 /-- the step-counting decoder computes exactly what the decoder computes -/
 theorem steps_erase (env : Env) (s : Schema) (bs : Bytes) :
